@@ -275,7 +275,11 @@ func buildSig(s string) string {
 			rest := l[i+4:]
 			parts := strings.SplitN(rest, ": ", 2)
 			if len(parts) == 2 {
-				return trimTo(parts[1], 100)
+				msg := parts[1]
+				if j := strings.Index(msg, " (/"); j >= 0 { // positions inside the scratch directory are not part of the signature
+					msg = msg[:j]
+				}
+				return trimTo(msg, 100)
 			}
 		}
 		return trimTo(l, 100)
